@@ -95,7 +95,7 @@ fire("C04", A, "*((n, _ParameterKind.KEYWORD_ONLY) for n in args.keyword_only),"
 fire("C04", A, "argcount=len(args.positional_only) + len(args.positional_or_keyword),", "argcount=len(args.positional_or_keyword),")
 fire("C04", C, "constants[0] if constants and isinstance(constants[0], str) else None", "constants[0] if constants else None")
 fire("C04", I, "        return len(self.parameters)", "        return len(self.positional_only) + len(self.positional_or_keyword)")
-fire("C04", A, "        *args.keyword_only,\n        *((args.var_positional,) if args.var_positional else ()),", "        *((args.var_positional,) if args.var_positional else ()),\n        *args.keyword_only,", "the original defect, encode side")
+fire("C04", A, "        *args.keyword_only,\n        *((args.var_positional,) if args.var_positional is not None else ()),", "        *((args.var_positional,) if args.var_positional is not None else ()),\n        *args.keyword_only,", "the original defect, encode side")
 # ---- C07
 fire("C07", J, '        if isinf(value):\n            return {"float": "inf" if value > 0 else "-inf"}\n', "")
 fire("C07", J, "MIN_INTEGER, MAX_INTEGER = (-(2**53) + 1, (2**53) - 1)", "MIN_INTEGER, MAX_INTEGER = (-(2**63) + 1, (2**63) - 1)")
@@ -202,3 +202,33 @@ silent(["C16"], "code_data/_cli.py", 'parser = argparse.ArgumentParser(descripti
 fire("C12", J, "    if is_dataclass(value):\n        return {", "    if isinstance(value, (Jump, Name)):\n        return vars(value)\n    if is_dataclass(value):\n        return {", "hands out the instance dictionary")
 fire("C10", L, "    while (bytecode_offset < max_offset) or current_item_offset < len(items):", "    while bytecode_offset < max_offset:", "trailing entries never consumed (R10.6)")
 silent(["C10"], L, "    while (bytecode_offset < max_offset) or current_item_offset < len(items):", "    while current_item_offset < len(items) or bytecode_offset < max_offset:", "same test, other order")
+# ---- rules added after the round-4 seeded changes
+CLI = "code_data/_cli.py"
+fire("C16", CLI, "    args = parser.parse_args()", "    args, _ = parser.parse_known_args()", "surplus arguments ignored (R16.8)")
+fire("C16", CLI, '        source = eval(eval_, {"linesep": linesep})', '        source = eval(eval_, {"__builtins__": {}, "linesep": linesep})', "-e without builtins (R16.2)")
+M.append(dict(kind="fire", pid="C16", file=CLI, old='        source = cmd.replace("\\\\n", "\\n")', new='        source = textwrap.dedent(cmd.replace("\\\\n", "\\n"))',
+              more=[("import argparse\n", "import argparse\nimport textwrap\n")], why="-c text rewritten (R16.2)"))
+silent(["C16"], CLI, '        source = cmd.replace("\\\\n", "\\n")', '        unescaped = cmd.replace("\\\\n", "\\n")\n        source = unescaped', "same text through a local")
+fire("C03", L, "                if line_number is not None:\n                    last_section_line_number = line_number\n        # If we added any bytecode",
+     "                last_section_line_number = line_number or last_section_line_number\n        # If we added any bytecode", "line 0 treated as no line (R03.9 / R10.7)")
+fire("C03", B, "        index = len(self)\n        self[index] = arg\n        return index", "        index = len(self)\n        self._i_to_arg[index] = arg\n        self._arg_to_i[hash_] = index\n        return index", "collision check bypassed (R03.2)")
+fire("C04", I, "    def __len__(self) -> int:\n        \"\"\"", "    def __post_init__(self) -> None:\n        object.__setattr__(self, \"keyword_only\", tuple(sorted(self.keyword_only)))\n\n    def __len__(self) -> int:\n        \"\"\"", "fields re-ordered at construction (R04.8)")
+fire("C08", I, "        if not isinstance(__o, Constant):\n            return False", "        if not isinstance(__o, Constant):\n            return self._index_override is None and constant_key(self.constant) == constant_key(__o)  # type: ignore", "equal to a bare value (R08.2)")
+fire("C02", B, "    elif opcode < HAVE_ARGUMENT:\n        return NoArg(arg)", "    elif opcode < HAVE_ARGUMENT or dis.opname[opcode] == \"RERAISE\":\n        return NoArg(arg)", "RERAISE classed as argument-less (R02.2)")
+silent(["C02", "C05"], B, "    elif opcode < HAVE_ARGUMENT:\n        return NoArg(arg)", "    elif not opcode >= HAVE_ARGUMENT:\n        return NoArg(arg)", "same class of opcodes")
+fire("C05", L, "                    else line_number - last_section_line_number\n", "                    else line_number - (section_line_number or 0)\n", "delta against a possibly missing line (R10.7)")
+fire("C13", B, "        return Jump(next_offset + ((2 if _ATLEAST_310 else 1) * arg), True)", "        if not arg:\n            return arg\n        return Jump(next_offset + ((2 if _ATLEAST_310 else 1) * arg), True)", "a relative jump of distance 0 is no jump (R02.1 via R13.J)")
+fire("C02", L, "            if line_number is not None:\n                self.offset_to_line[offset] += line_offset  # type: ignore", "            if line_number is not None and line_number >= 0:\n                self.offset_to_line[offset] += line_offset  # type: ignore", "negative relative lines left unshifted (R01.5)")
+fire("C09", B, "            self[index_override] = arg\n            return index_override", "            self._i_to_arg[index_override] = arg\n            return index_override", "pinned entries not found by key (R09.6)")
+fire("C11", B, "        + tuple(Cellvar(*xs) for xs in found_cellvars.additional_args())", "        + tuple(Cellvar(*xs) for xs in found_cellvars.additional_args() if xs[0] not in args.parameters)", "unreferenced entries filtered (R09.3 via R11.U)")
+fire("C11", C, "    flags_data = to_flags_data(code.co_flags)", "    flags_data = to_flags_data(code.co_flags & 0x7FFFFFFF)", "bits masked before the unknown-bits test (R11.1)")
+silent(["C11"], C, "    flags_data = to_flags_data(code.co_flags)", "    flag_word = code.co_flags\n    flags_data = to_flags_data(flag_word)", "same word through a local")
+M.append(dict(kind="fire", pid="C12", file=I, old="        return code_data_from_json(json_data)", new="        limit = sys.getrecursionlimit()\n        sys.setrecursionlimit(max(limit, 20000))\n        res = code_data_from_json(json_data)\n        sys.setrecursionlimit(limit)\n        return res",
+              more=[("from collections import OrderedDict\n", "import sys\nfrom collections import OrderedDict\n")], why="process setting not restored on failure (R12.7)"))
+M.append(dict(kind="silent", pid=["C12"], file=I, old="        return code_data_from_json(json_data)", new="        limit = sys.getrecursionlimit()\n        sys.setrecursionlimit(max(limit, 20000))\n        try:\n            return code_data_from_json(json_data)\n        finally:\n            sys.setrecursionlimit(limit)",
+              more=[("from collections import OrderedDict\n", "import sys\nfrom collections import OrderedDict\n")], why="restored in a finally"))
+fire("C10", L, "        if is_linetable:\n            expand_line()\n            expand_bytecode()", "        if line_offset is not None and -128 <= line_offset <= 127 and bytecode_offset <= MAX_BYTECODE:\n            expanded_items.append(LineTableItem(line_offset=line_offset, bytecode_offset=bytecode_offset))\n            continue\n        if is_linetable:\n            expand_line()\n            expand_bytecode()", "shortcut admits -128 for linetable (R10.2)")
+silent(["C10"], L, "        if is_linetable:\n            expand_line()\n            expand_bytecode()", "        if line_offset is not None and MIN_LINE <= line_offset <= 127 and bytecode_offset <= MAX_BYTECODE:\n            expanded_items.append(LineTableItem(line_offset=line_offset, bytecode_offset=bytecode_offset))\n            continue\n        if is_linetable:\n            expand_line()\n            expand_bytecode()", "shortcut within one entry of either format")
+fire("C11", A, "    if args.var_positional is not None:\n        flags_data |= {\"VARARGS\"}", "    if args.var_positional:\n        flags_data |= {\"VARARGS\"}", "the original defect: '' is a name (R11.T)")
+fire("C10", L, "                if is_linetable and line_offset is not None:\n                    line_offset = 0", "                if is_linetable:\n                    line_offset = 0", "the original defect: no-line marker lost in continuation entries (R10.3)")
+fire("C10", L, "            # A range without a line is continued without a line, not with a 0\n            and prev_item.line_offset is not None\n", "", "the original defect: (n, 0) merged into a no-line entry (R10.1)")
